@@ -162,6 +162,9 @@ def err_fp(errors):
     return tuple((type(e).__name__, repr(e.path)) for e in errors)
 
 
+QUIET = [False]      # True: fingerprints do not print schemas (second observation schedule)
+
+
 def fingerprint(status, r, generated=False):
     """outcome of an operation as plain comparable data"""
     if status != "ok":
@@ -169,6 +172,8 @@ def fingerprint(status, r, generated=False):
     if generated:
         return ("ok", "generated", dump_generated(r))
     if isinstance(r, Schema):
+        if QUIET[0]:
+            return ("ok", "schema", dump(r))
         return ("ok", "schema") + snapshot_cheap(r)
     if type(r).__name__ == "ValidationResult":
         return ("ok", "result", err_fp(r.get_errors()))
@@ -1375,6 +1380,27 @@ def run_records(ops, checks, full_all=True):  # noqa: F811
     if ops and ops[0].get("op") == "__pre__":
         _orig_run_records(ops[0]["ops"], False)
         ops = ops[1:]
+    if ops and ops[-1].get("op") == "__final_reprs__":
+        # a second observation schedule: nothing is printed while the history runs, then every
+        # pooled schema is printed once, the LAST one first
+        rn = Runner(checks=False, full_all=full_all)
+        QUIET[0] = True
+        try:
+            for op in ops[:-1]:
+                if op.get("op") in ("repr", "represent"):
+                    continue                      # nothing is printed before the end
+                rn.step(op)
+        except Failure as f:
+            return (f.kind, f.step, f.detail), rn.fps
+        finally:
+            QUIET[0] = False
+        finals = {}
+        for name in reversed(rn.pool):
+            try:
+                finals[name] = repr(rn.env[name])
+            except Exception as e:  # noqa
+                finals[name] = "!" + type(e).__name__
+        return None, rn.fps + [finals]
     return _orig_run_records(ops, checks, full_all)
 
 
@@ -1481,6 +1507,26 @@ def _run(ctx, pristine, n_hist, n_ops, depth, n_slices, shrink_budget, model_his
                 totals["pristine_slices"] += 1
                 if fps1[-1] != rn.fps[i]:
                     dep = (i, fps1[-1], rn.fps[i])
+                    break
+        # --- observation-order independence: what a schema prints must not depend on which schemas
+        #     were printed before it (the checked run prints every schema when it enters the pool and
+        #     after every step; the pristine run prints nothing until the end, then last-first)
+        if dep is None and rn.pool:
+            _, fps2 = pristine.run(records + [{"op": "__final_reprs__"}], False)
+            totals["observation_orders"] = totals.get("observation_orders", 0) + 1
+            finals = fps2[-1] if fps2 and isinstance(fps2[-1], dict) else {}
+            for name in rn.pool:
+                want = rn.meta[name]["cheap"][0]
+                if name in finals and finals[name] != want:
+                    reported += 1
+                    tail = (f"print(repr({name}))   # printed FIRST here; the checked run had printed its members before")
+                    ctx.violation(
+                        f"the printed form of `{name}` depends on which schemas were printed before it",
+                        {"kind": "observation-order", "schema": name,
+                         "source": program_source(prev + records, watch=name, tail=tail),
+                         "observed": want[:600], "expected": finals[name][:600] + "  (printed first, in a fresh process)",
+                         "operations": len(prev) + len(records),
+                         "theorem_or_suite": "C07 replay determinism: represent on equal inputs (replay_deterministic)"})
                     break
         if dep is not None:
             reported += 1
